@@ -75,6 +75,8 @@ func replayFile(path string) int {
 		var as aliasStats
 		n := names(f.Replay.A, f.Replay.B)
 		aliasedComp(col, &as, 0, n[0][0], n[1][0].typ)
+	case "wire":
+		checkWire(col, 0, names(f.Replay.A)[0])
 	case "comp-uri":
 		checkCompURI(col, &us, 0, names(f.Replay.A)[0][0])
 	case "name-uri":
